@@ -121,7 +121,7 @@ def attributable(f, what, detail):
 
 def correspond(ctx, C):
     st = S.SpecStats()
-    rows = S.run(ctx, C, "speccat", 128, 1280) + S.run(ctx, C, "spec", 256, 4000) + S.run(ctx, C, "specmut", 160, 4000) + S.run(ctx, C, "specfix", 208, 208)
+    rows = S.run(ctx, C, "speccat", 196, 1960) + S.run(ctx, C, "spec", 256, 4000) + S.run(ctx, C, "specmut", 160, 4000) + S.run(ctx, C, "specfix", 208, 208)
     known = S.known_for(C, "C10")
     viol, attributed = [], {}
     orders = 0
